@@ -9,6 +9,7 @@ import (
 	"context"
 	"fmt"
 	"reflect"
+	"strings"
 
 	corev1 "k8s.io/api/core/v1"
 	discoveryv1 "k8s.io/api/discovery/v1"
@@ -211,7 +212,7 @@ func (d *kubeSvcDef) pod(p podDef) *corev1.Pod {
 	return &corev1.Pod{
 		ObjectMeta: metav1.ObjectMeta{Name: p.Name, Namespace: d.Ns, Labels: labels,
 			CreationTimestamp: metav1.NewTime(baseTime)},
-		Spec: corev1.PodSpec{ServiceAccountName: p.SA, NodeName: "node1", Containers: []corev1.Container{{Name: "app", Image: "app"}}},
+		Spec: corev1.PodSpec{ServiceAccountName: p.SA, NodeName: nodeOf(p.Name), Containers: []corev1.Container{{Name: "app", Image: "app"}}},
 		Status: corev1.PodStatus{
 			Conditions: []corev1.PodCondition{{Type: corev1.PodReady, Status: corev1.ConditionTrue, LastTransitionTime: metav1.NewTime(baseTime)}},
 			PodIP:      p.IP, HostIP: "10.0.0.1", PodIPs: []corev1.PodIP{{IP: p.IP}}, Phase: corev1.PodRunning,
@@ -243,9 +244,25 @@ func (d *kubeSvcDef) slice(pods []podDef, variant int) *discoveryv1.EndpointSlic
 	return es
 }
 
+// nodeOf: pods whose name ends in 2 run on node2 (region2), the others on node1 (region1): kube endpoints get localities
+func nodeOf(pod string) string {
+	if strings.HasSuffix(pod, "2") {
+		return "node2"
+	}
+	return "node1"
+}
+
+func nodeObjects() []runtime.Object {
+	mk := func(name, region, zone string) *corev1.Node {
+		return &corev1.Node{ObjectMeta: metav1.ObjectMeta{Name: name, CreationTimestamp: metav1.NewTime(baseTime),
+			Labels: map[string]string{"topology.kubernetes.io/region": region, "topology.kubernetes.io/zone": zone}}}
+	}
+	return []runtime.Object{mk("node1", "region1", "zone1"), mk("node2", "region2", "zone1")}
+}
+
 // kubeObjects renders the initial objects of a world.
 func kubeObjects(w world) []runtime.Object {
-	var out []runtime.Object
+	out := nodeObjects()
 	for _, d := range kubeUniverse {
 		v, ok := w[d.ID]
 		d := d
